@@ -16,6 +16,7 @@ pub struct PanicRec {
 
 thread_local! {
     static LAST_PANIC: RefCell<Option<PanicRec>> = const { RefCell::new(None) };
+    static IN_RUN: std::cell::Cell<bool> = const { std::cell::Cell::new(false) };
 }
 
 /// Install the process-wide panic hook: silent, records message and location.
@@ -35,6 +36,9 @@ pub fn install_panic_hook() {
             .location()
             .map(|l| (l.file().to_string(), l.line()))
             .unwrap_or_default();
+        if !IN_RUN.with(|r| r.get()) {
+            eprintln!("HARNESS panic outside a run: {} at {}:{}", msg, file, line);
+        }
         LAST_PANIC.with(|p| {
             let mut p = p.borrow_mut();
             // keep the first panic of a run (a panic during unwinding would abort anyway)
@@ -126,9 +130,11 @@ pub fn execute(case: &Case, mon: Monitors, keep_log: bool) -> Outcome {
     sim.arm(FaultPlan::from_vec(&case.fault));
     let mut ctx = Ctx::new(case, sim.clone(), keep_log, mon);
     LAST_PANIC.with(|p| *p.borrow_mut() = None);
+    IN_RUN.with(|r| r.set(true));
     let res = catch_unwind(AssertUnwindSafe(|| {
         crate::engines::dispatch(case, &mut ctx);
     }));
+    IN_RUN.with(|r| r.set(false));
     sim.clear_budget();
     sim.mute(false);
     let mut violation = None;
